@@ -482,6 +482,43 @@ pub fn c16_payload(p: &[u8], out: &mut Vec<Viol>, counts: &mut Counts) {
             c16_case(p, n, q, &f1, out, counts);
         }
     }
+    c16_after_abort(p, &f1, out, counts);
+}
+/// A transmission that is cut off by the next start sequence (start + `a`, then the frame of
+/// `p`): whatever the aborted transmission left behind - withheld zeros, 0x1b counts, buffer
+/// contents - the frame of `p` still needs exactly |p| bytes. `a` is kept within the capacity
+/// so that the aborted transmission itself cannot run out of memory.
+const ABORTS: [&[u8]; 10] = [&[], &[0x00], &[0x00, 0x00], &[0x00, 0x00, 0x00], &[0x00, 0x00, 0x00, 0x00], &[0x00, 0x00, 0x00, 0x00, 0x00], &[0x55, 0x00, 0x00, 0x00, 0x00], &[0x1b, 0x55], &[0x1b, 0x00, 0x00, 0x00, 0x00], &[0x00, 0x00, 0x00, 0x00, 0x00, 0x00, 0x00]];
+// (no `a` ends in 0x1b: start+..1b followed by 1b1b1b1b is a misaligned escape, not a restart)
+fn c16_after_abort(p: &[u8], f1: &[u8], out: &mut Vec<Viol>, counts: &mut Counts) {
+    for n in [p.len(), p.len() + 1] {
+        if !has_cap(n) {
+            continue;
+        }
+        for a in ABORTS {
+            if a.len() > n {
+                continue;
+            }
+            let mut stream = crate::refm::START.to_vec();
+            stream.extend_from_slice(a);
+            stream.extend_from_slice(f1);
+            counts.inc("runs after an aborted transmission");
+            let run = mon_run(BufKind::Arr(n), &stream, &[]);
+            let ctx = |s: &str| format!("N={} aborted transmission start+{} : {} ; events {}", n, hex(a), s, evs_short(&run.events));
+            let mut bad = |class: &str, what: String| {
+                let mut v = viol("C16", class, p, what);
+                v.key = format!("{} N={} abort={}", v.key, n, hex(a));
+                out.push(v)
+            };
+            for (c, w) in &run.findings {
+                bad(c, ctx(w));
+            }
+            let oom = run.events.iter().any(|e| *e == Ev::Dec(DecodeErr::OutOfMemory));
+            if oom || run.events.last() != Some(&Ev::Msg(p.to_vec())) || run.pos.last() != Some(&stream.len()) {
+                bad("C16 frame after an aborted transmission does not decode in a buffer of exactly its payload length (or larger)", ctx("expected Ok(payload) at the frame's last byte and no OutOfMemory"));
+            }
+        }
+    }
 }
 fn c16_case(p: &[u8], n: usize, q: &[u8], f1: &[u8], out: &mut Vec<Viol>, counts: &mut Counts) {
     let kind = BufKind::Arr(n);
